@@ -163,10 +163,16 @@ type exported struct {
 	pass string
 }
 
-func genOp(r *vh.Rng, wd *world) COp {
+func genOp(r *vh.Rng, wd *world) COp { return genOpKind(r, wd, "") }
+
+// genOpKind generates an operation of the wanted kind if the wallet state allows it, else a random possible one.
+func genOpKind(r *vh.Rng, wd *world, want string) COp {
 	hasKs := len(wd.ids) > 0
-	for {
+	for try := 0; ; try++ {
 		kind := []string{"create", "import", "delete", "next", "next", "genpub", "genpub", "remark", "chpriv", "chpub"}[r.Intn(10)]
+		if want != "" && try < 3 {
+			kind = want
+		}
 		o := COp{Kind: kind}
 		pick := func() string { return wd.ids[r.Intn(len(wd.ids))] }
 		switch kind {
@@ -297,9 +303,16 @@ func faultHistory(run *vh.Run, rng *vh.Rng, hi int) {
 	}
 	w.Close()
 	var trace []string
-	nops := rng.Range(3, 6)
+	// plan: two keystores first (multi-keystore operations are where a per-keystore transaction or a partial
+	// re-key would show), then a shuffled selection that covers every operation kind across a few histories
+	plan := []string{"create", "create"}
+	rest := []string{"chpriv", "chpub", "delete", "import", "next", "genpub", "remark", "create", "next", "chpriv"}
+	for _, pi := range rng.Perm(len(rest))[:rng.Range(3, 5)] {
+		plan = append(plan, rest[pi])
+	}
+	nops := len(plan)
 	for j := 0; j < nops; j++ {
-		op := genOp(rng, wd)
+		op := genOpKind(rng, wd, plan[j])
 		trace = append(trace, op.String())
 		privs := map[string][]byte{"old": wd.priv}
 		pubs := map[string][]byte{"old": wd.pub}
